@@ -23,3 +23,10 @@ OBLIGATIONS = [
     ob("c05.f.box_keypair", "harness/x25519_api.c", "hf_box_keypair", ["crypto_box_curve25519xsalsa20poly1305_seed_keypair", "crypto_box_curve25519xsalsa20poly1305_keypair"],
        "seeded box key pair = (SHA-512(seed)[0..32), base multiple); random key pair draws 32 bytes", props=("C05", "C18"), defs=["-DPART=2"]),
 ]
+
+RC = sum([["--replace-calls", a + ":" + b] for a, b in (("fe25519_cswap", "s_fe_cswap"), ("fe25519_mul", "s_fe_binop"), ("fe25519_add", "s_fe_binop"), ("fe25519_sub", "s_fe_binop"),
+      ("fe25519_sq", "s_fe_unop"), ("fe25519_copy", "s_fe_unop"), ("_sodium_fe25519_invert", "s_fe_unop"), ("fe25519_mul32", "s_fe_mul32"), ("_sodium_fe25519_frombytes", "s_fe_frombytes"), ("_sodium_fe25519_tobytes", "s_fe_tobytes"))], [])
+OBLIGATIONS.append(ob("c05.f.ladder_structure", "harness/x25519.c", "hf_ladder", ["crypto_scalarmult_curve25519_ref10", "has_small_order"],
+    "X25519 ref10: low-order points refused first; scalar clamped per RFC 7748; the ladder performs 255 steps whose conditional-swap bits are those of the clamped scalar, top bit first",
+    gi_pre=RC, replayable=False, cbmc=["--unwind", "260", "--unwinding-assertions"], timeout=900,
+    assumes=A + ["in this obligation the field operations are stubs (only the swap bits are recorded): it decides the control structure, not the field arithmetic"]))
